@@ -353,3 +353,32 @@ Section MultiformProofs.
     apply op_den_mul; apply mf_dec_wf.
   Qed.
 End MultiformProofs.
+
+From Coq Require Import String.
+
+(* ------------------------------------------------------------------ remove_terms keeps the forms consistent *)
+Lemma remove_idx_map {X Y : Type} (f : X -> Y) idx : forall l k,
+  remove_idx idx k (map f l) = map f (remove_idx idx k l).
+Proof.
+  induction l as [|x l IH]; intro k; simpl; [reflexivity|].
+  destruct (existsb (Nat.eqb k) idx); simpl; rewrite IH; reflexivity.
+Qed.
+
+Theorem remove_forms_ok updated idx F :
+  forms_updated_all updated = true -> forms_ok F -> forms_ok (mf_remove_forms updated idx F).
+Proof.
+  unfold forms_updated_all. intro H.
+  repeat (apply andb_true_iff in H; destruct H as [H ?]).
+  intros [Hb Hs]. unfold mf_remove_forms, forms_ok. simpl.
+  repeat match goal with Hn : has_name _ updated = true |- _ => rewrite Hn; clear Hn end.
+  rewrite Hb, Hs, !remove_idx_map. split; reflexivity.
+Qed.
+
+(* a method that shortens integer and binary_swap but not binary leaves the object inconsistent *)
+Theorem remove_forms_stale_binary_refuted :
+  exists F idx, forms_ok F /\
+    ~ forms_ok (mf_remove_forms ["factors"; "integer"; "binary_swap"; "terms"]%string idx F).
+Proof.
+  exists (mkForms [[2%N]; [1%N]] [bin_of [2%N]; bin_of [1%N]] [swap_of [2%N]; swap_of [1%N]]), [0].
+  split; [split; reflexivity|]. intros [Hb _]. vm_compute in Hb. discriminate Hb.
+Qed.
